@@ -296,13 +296,21 @@ def project_cases(T):
             nw = one * two - one if depth == 'NO' else one
             obj = mulv(Inv, [nx, ny, nz, nw])
             iw = pc.inv(obj[3])
+
+            def free(key):
+                # the 16 lanes of Inv = inverse(proj * model): as proj * model ranges over the invertible matrices so does Inv,
+                # hence the lanes are independent free values for the purpose of refuting a non-zero rational residual
+                if key[0] != 't':
+                    return False
+                x = key[1][1]
+                return x is invt or (x.op == 'slice' and x.args[0] is invt)
             for i in range(3):
                 d = norm(pc.fpoly(outs[i]) - obj[i] * iw)
                 oid = '%s[%d]' % (uname, i)
                 if d.is_zero():
                     res.append(R.ob(oid, 'viewport', R.PROVED, 'object %s = (Inv*ndc).%s / (Inv*ndc).w with ndc = window -> [-1,1]%s' % ('xyz'[i], 'xyz'[i], '' if depth == 'NO' else ' (depth kept in [0,1])'), kernel=ku.source()))
                 else:
-                    res.append(R.ob(oid, 'viewport', R.UNDECIDED if not P.transparent(d) else R.REFUTED, 'residual %s' % P.show_poly(d, limit=4), kernel=ku.source()))
+                    res.append(R.ob(oid, 'viewport', R.UNDECIDED if not P.transparent(d, free=free) else R.REFUTED, 'residual %s' % P.show_poly(d, limit=4), kernel=ku.source()))
             return res
         cs.append(R.Case(uname, [ku], judge_u))
     return cs
